@@ -222,6 +222,18 @@ def run(ck, m):
             hook_cases = emit.cases(emit.Builder(hook).expr(arg), {}, limit=4) or []
             every = bool(hook_cases) and all(any(isinstance(a_, emit.Sym) and a_.text.split(".")[-1] in ("KITTY_END_CHUNKED", "KITTY_END_CHUNKED_b") for a_ in emit.atoms(t_)) for _, t_ in hook_cases)
             ck.ob("R3", c, "KITTY_END_CHUNKED" in names_in(trace(hook, arg)) and every, f"{cls.name} transmits in chunks; its hook must also send KITTY_END_CHUNKED", stmt=f"{cls.name}: hook ends chunked transmission")
+            # ... unconditionally: which frame was cut is not known to the hook (frames may come from a cache, rendered long before), so a flag that
+            # remembers whether "the last render" was chunked says nothing about the transmission that was interrupted
+            ta_ = trace(hook, arg)
+            def _plain_end(e_):
+                if isinstance(e_, (ast.Name, ast.Attribute)) and (dotted(e_) or "").split(".")[-1] in ("KITTY_END_CHUNKED", "KITTY_END_CHUNKED_b"):
+                    return True
+                if isinstance(e_, ast.BinOp) and isinstance(e_.op, ast.Add):
+                    return _plain_end(e_.left) or _plain_end(e_.right)
+                if isinstance(e_, ast.JoinedStr):
+                    return any(isinstance(v_, ast.FormattedValue) and _plain_end(v_.value) for v_ in e_.values)
+                return False
+            ck.ob("R3", c, _plain_end(ta_), f"{cls.name}: KITTY_END_CHUNKED must be sent unconditionally by the hook (not multiplied by / selected on a flag); found `{short(ta_, 70)}`", stmt=f"{cls.name}: hook ends chunked transmission unconditionally")
 
     # ---- R4 ----------------------------------------------------------------------------
     tr = next((s for s in anim_old.body if isinstance(s, ast.Try) and s.finalbody), None)
